@@ -17,12 +17,15 @@
                                          unrelated variable of the same name) and the source has a goto
                                          whose annotation differs from its label's type,
         VIOL class=capture-under-binder  when the syntactic detector [shadowing_risk] fires on the source,
+        VIOL class=call-to-main          (known finding) when some call targets `main` ([calls_main_prog]:
+                                         compile_main gives main no return continuation, the call
+                                         site passes one) - checked after capture-under-binder,
         VIOL class=semantic-mismatch     otherwise.  Tuples on which the source run
       does not end in a normal exit within the fuel (undefined arithmetic, stuck, out of fuel) are
       not compared (the property speaks about the defined behaviour). *)
 From Coq Require Import List ZArith NArith String Bool.
 From SCC Require Import Base.Sexp Lang.SynUtil Lang.FunSyn Lang.FunTy Lang.CoreSyn.
-From SCC Require Import Sem.AxSem Sem.CoreSem Sem.FunSem Model.RunBase Model.Fun2Core.
+From SCC Require Import Sem.AxSem Sem.CoreSem Sem.FunSem Model.RunBase Model.Fun2Core Model.Fun2CoreGuard.
 Import ListNotations.
 Open Scope string_scope.
 
@@ -74,6 +77,14 @@ Definition fun2core_tags (p : fcprog) (ncmp : nat) (has_exp : bool) : string :=
        ++ (if effect_sequenced p then " sequenced" else " unsequenced")
        ++ (if has_exp then " expected-ok" else "")
        ++ (if main_in_fragment p then " proved-fragment" else "")
+       (* inside the hypotheses of C02_fun2core_correct_fragment2 (no codata, no call of main, well-scoped,
+          capture guard): for these programs agreement of the two runs is a THEOREM about the model *)
+       ++ (if prog_guard p && nodup_str (map fdname (fcpdefs p)) then " proved-fragment2"
+           else (* which part of the guard fails (histogram of what keeps inputs outside the theorem) *)
+                (if forallb (fun d => frag p (fdbody d)) (fcpdefs p) then "" else " out-frag")
+                ++ (if forallb (fun d => kd p (fdbody d)) (fcpdefs p) then "" else " out-kind")
+                ++ (if forallb (fun d => ws (compile_ctx (fdctx d)) (fdbody d)) (fcpdefs p) then "" else " out-scope")
+                ++ (if forallb (fun d => nocap (fdbody d)) (fcpdefs p) then "" else " out-nocap"))
        ++ " cmp" ++ n_to_string (N.of_nat ncmp)
        ++ " size" ++ n_to_string (N.log2 (size_fcprog p)).
 
@@ -83,6 +94,7 @@ Fixpoint ends_with (suffix s : string) : bool :=
 Definition witness_ok (name : string) (p : fcprog) : bool :=
   if ends_with "corpus/fun/capture1.sc" name then fcprog_eqb p capture_witness
   else if ends_with "corpus/fun/c02_unbound_covar.sc" name then fcprog_eqb p goto_witness
+  else if ends_with "corpus/fun/call_main_nontail.sc" name then fcprog_eqb p call_main_witness
   else true.
 
 Definition fun2core_case (i r : sexp) : verdict :=
@@ -112,6 +124,7 @@ Definition fun2core_case (i r : sexp) : verdict :=
                           if negb (effect_sequenced p) then VSkip ("unsequenced-mismatch " ++ name ++ " " ++ what)
                           else
                           VViol ((if shadowing_risk_prog p then "class=capture-under-binder " else
+                                  if calls_main_prog p then "class=call-to-main " else
                                   if core_unbound && goto_type_mismatch_prog p then "class=mistyped-goto-unbound " else
                                   "class=semantic-mismatch ")
                                  ++ name ++ " " ++ what)
